@@ -851,7 +851,7 @@ class Process(StateMachine, persistence.Savable, metaclass=ProcessStateMachineMe
     def on_playing(self) -> None:
         """The process was played."""
         # Done being paused
-        if self._paused is not None:
+        if self._paused is not None and not self._paused.done():
             self._paused.set_result(True)
         self._paused = None
 
@@ -917,6 +917,9 @@ class Process(StateMachine, persistence.Savable, metaclass=ProcessStateMachineMe
     def on_terminated(self) -> None:
         """Call when a terminal state is reached."""
         super().on_terminated()
+        if self._paused is not None and not self._paused.done():
+            # Release a ``step`` that is waiting for the process to be played
+            self._paused.set_result(True)
         self.close()
 
     @super_check
@@ -1318,6 +1321,10 @@ class Process(StateMachine, persistence.Savable, metaclass=ProcessStateMachineMe
         if self.paused and self._paused is not None:
             await self._paused
 
+        if self.has_terminated():
+            # Killed while it was paused
+            return
+
         try:
             self._stepping = True
             next_state = None
@@ -1340,6 +1347,10 @@ class Process(StateMachine, persistence.Savable, metaclass=ProcessStateMachineMe
                 # Overwrite the next state to go to excepted directly
                 next_state = self.create_state(process_states.ProcessState.EXCEPTED, *sys.exc_info()[1:])
                 self._set_interrupt_action(None)
+
+            if self.has_terminated():
+                # Terminated while the step was in flight, e.g. failed by a scheduled callback that raised
+                return
 
             if self._interrupt_action:
                 self._interrupt_action.run(next_state)
